@@ -666,7 +666,10 @@ def refine_droplet(
 
         # add vmin and vrng as separate fitting parameters
         parameters = np.r_[data_flat[free], vmin, vrng]
-        bounds = np.r_[bounds[0], vmin - vrng, 0], np.r_[bounds[1], vmax, 3 * vrng]
+        # (the bounds of the two levels are consistent: a range of up to `3 * vrng` below
+        # the upper level `vmax` implies that the lower level can be as low as
+        # `vmax - 3 * vrng = vmin - 2 * vrng`)
+        bounds = np.r_[bounds[0], vmin - 2 * vrng, 0], np.r_[bounds[1], vmax, 3 * vrng]
 
         def _image_deviation(params):
             """Helper function evaluating the residuals."""
